@@ -55,7 +55,7 @@ def handle (op : String) (j : Json) : Except String Json := do
   match op with
   | "ns_run" =>
     let cfgName ← getStr j "cfg"
-    let cfg := if cfgName = "bundle" then bundleCfg else moduleCfg
+    let cfg0 := if cfgName = "bundle" then bundleCfg else moduleCfg
     let names ← (← getArr j "names").toList.mapM (fun x => x.getStr?)
     let objsJ ← getArr j "objs"
     let objs ← objsJ.mapIdxM (fun i o => do
@@ -63,6 +63,8 @@ def handle (op : String) (j : Json) : Except String Json := do
       pure (⟨i, k⟩ : Obj))
     let presetNames ← objsJ.mapM (fun o => getOptStr o "name")
     let ops ← (← getArr j "ops").toList.mapM (parseOp objs)
+    -- the private names: every name of the case that starts with an underscore
+    let cfg : Cfg := { cfg0 with priv := (names ++ ops.flatMap Op.names).filter (fun n => n.startsWith "_") }
     let init := State.init (fun i => (presetNames[i]?).join)
     let rec go (s : State) : List Op → List Json
       | [] => []
